@@ -168,6 +168,9 @@ pub enum Variant {
     /// CRLF line ends, and the first posting of every transaction carries a trailing `; n` comment, so that some amounts
     /// end their line and others do not
     CrlfWithComments,
+    /// after the history (which has used the accounts already) every account is declared with an alias, and the judged
+    /// transaction is written through the aliases: which name an account is written by changes nothing about balancing
+    LateAccountAliases,
 }
 
 pub fn judge_case_v(prec: &Prec, hist: &[Txn], txn: &Txn, variant: Variant) -> (String, Box<dyn FnOnce() -> Outcome>) {
@@ -179,7 +182,16 @@ pub fn judge_case_v(prec: &Prec, hist: &[Txn], txn: &Txn, variant: Variant) -> (
     }
     let mut all: Vec<Txn> = hist.to_vec();
     all.push(txn.clone());
-    let r = rl::render(&header, &all, &|_, _, a| a.to_string());
+    let r = if variant == Variant::LateAccountAliases {
+        let h = rl::render(&header, hist, &|_, _, a| a.to_string());
+        let mut header2 = h.text.clone();
+        for a in ACCTS {
+            header2.push_str(&format!("account {}\n  alias {}x\n\n", a, a.to_lowercase()));
+        }
+        rl::render(&header2, std::slice::from_ref(txn), &|_, _, a| format!("{}x", a.to_lowercase()))
+    } else {
+        rl::render(&header, &all, &|_, _, a| a.to_string())
+    };
     let text = if variant == Variant::CrlfWithComments {
         let firsts: std::collections::BTreeSet<usize> = r.posting_lines.iter().filter_map(|pl| pl.first().copied()).collect();
         let mut out = String::new();
@@ -363,10 +375,16 @@ fn run(ctx: &mut Ctx) {
     // (6) two renderings of the same ledgers: commodities declared twice (the second time without `format`), and CRLF
     // files in which some amounts end their line and others are followed by a comment. All 1- and 2-posting
     // transactions over the full alphabet, 3-posting ones over the reduced alphabet of (4), empty history and history 1
-    for variant in [Variant::Redeclared, Variant::CrlfWithComments] {
-        let ps: &[Prec] = if variant == Variant::Redeclared { &precs[1..] } else { &precs[..2] };
+    for variant in [Variant::Redeclared, Variant::CrlfWithComments, Variant::LateAccountAliases] {
+        let ps: &[Prec] = match variant {
+            Variant::Redeclared => &precs[1..],
+            Variant::LateAccountAliases => &precs[..1],
+            _ => &precs[..2],
+        };
         for prec in ps {
-            for hist in [&empty, &hists[1]] {
+            // the alias variant needs accounts that were used before their declaration: the one-transaction history and the
+            // assignment-only history
+            for hist in if variant == Variant::LateAccountAliases { [&hists[1], &hists[4]] } else { [&empty, &hists[1]] } {
                 let mut emit_v = |ctx: &mut Ctx, sel: &[&P]| {
                     if !ctx.next_is_mine() {
                         ctx.skip_cases(1);
